@@ -9,7 +9,7 @@ var nSites int // number of instrumented yield sites of this build (0 = plain)
 var taskKinds = []struct {
 	kind string
 	w    int
-}{{"parse", 18}, {"parse-render", 10}, {"stream", 14}, {"render", 26}, {"append", 8}, {"format", 14}, {"walk", 10}, {"inspect", 8}}
+}{{"parse", 18}, {"parse-render", 10}, {"stream", 14}, {"render", 26}, {"append", 8}, {"format", 14}, {"walk", 10}, {"inspect", 8}, {"walk-shared", 7}, {"stream-shared-ip", 7}}
 
 func genSched(r *Rng, phase string) []*Scenario {
 	nd := r.Range(1, 4)
@@ -43,7 +43,10 @@ func genSched(r *Rng, phase string) []*Scenario {
 		case "parse-render":
 			rs := genRenderScn(r)
 			t.Render = &rs
-		case "stream":
+		case "walk-shared":
+			t.Walk = genWalkScn(r, 4)
+			t.Walk.View, t.Walk.Reentrant, t.Walk.PreNil, t.Walk.PostNil, t.Walk.RootPath = "default", false, false, false, nil
+		case "stream", "stream-shared-ip":
 			d := s.Docs[t.Doc]
 			rd := &ReaderScn{Terminal: r.Pick([]string{"separate", "with-data"}), ExtraCalls: 1}
 			rd.Fault.Kind = "none"
